@@ -226,6 +226,11 @@ func registerIntrinsics(in *Interp) {
 		st.assertCond(Bool{C: false}, strArg(a[0]))
 		return done(nil)
 	}
+	I["verif:verifUnsupported"] = func(st *State, fr *Frame, a []Value, _ ssa.Value) (Value, int) {
+		// the environment model cannot interpret what the code asked of it: inconclusive, never a verdict
+		unsupported("environment model: " + strArg(a[0]))
+		return done(nil)
+	}
 	I["verif:verifReach"] = func(st *State, fr *Frame, a []Value, _ ssa.Value) (Value, int) {
 		st.reach = append(st.reach, strArg(a[0]))
 		return done(nil)
